@@ -54,6 +54,13 @@ FILTERS = {
     "all": flt(''),
     "partstat": flt('<C:comp-filter name="VEVENT"><C:prop-filter name="ATTENDEE"><C:param-filter name="PARTSTAT">'
                     '<C:text-match>ACCEPTED</C:text-match></C:param-filter></C:prop-filter></C:comp-filter>'),
+    # negated text matches (several components of one type give the index several values)
+    "notAlpha": flt('<C:comp-filter name="VEVENT"><C:prop-filter name="SUMMARY"><C:text-match negate-condition="yes">Alpha'
+                    '</C:text-match></C:prop-filter></C:comp-filter>'),
+    "notLoc1": flt('<C:comp-filter name="VEVENT"><C:prop-filter name="LOCATION"><C:text-match negate-condition="yes">1'
+                   '</C:text-match></C:prop-filter></C:comp-filter>'),
+    "sumMoved": flt('<C:comp-filter name="VEVENT"><C:prop-filter name="SUMMARY"><C:text-match>Alpha moved'
+                    '</C:text-match></C:prop-filter></C:comp-filter>'),
     # presence / absence of properties whose value may be empty or zero
     "hasLoc": flt('<C:comp-filter name="VEVENT"><C:prop-filter name="LOCATION"/></C:comp-filter>'),
     "hasPrio": flt('<C:comp-filter name="VEVENT"><C:prop-filter name="PRIORITY"/></C:comp-filter>'),
@@ -115,6 +122,9 @@ BODIES = {
                      ev(U, "Alpha moved", dtstart="20200120T100000Z", dtend="20200120T110000Z",
                         extra=("RECURRENCE-ID:20200410T100000Z",))), "multi"),
     "att": (lambda U: cal(ev(U, "Alpha", extra=("ATTENDEE;PARTSTAT=ACCEPTED:mailto:a@example.com",))), "plain"),
+    "attMix": (lambda U: cal(ev(U, "Alpha", extra=("ATTENDEE;PARTSTAT=ACCEPTED:mailto:a@example.com",)),
+                             ev(U, "Alpha two", dtstart="20200122T100000Z", dtend="20200122T110000Z",
+                                extra=("RECURRENCE-ID:20200122T100000Z", "ATTENDEE:mailto:b@example.com"))), "multi"),
     "attN": (lambda U: cal(ev(U, "Alpha", extra=("ATTENDEE:mailto:b@example.com",))), "plain"),
     "tz": (lambda U: cal(TZ_BERLIN, ev(U, "Alpha", dtstart=";TZID=Europe/Berlin:20200201T003000",
                              dtend=";TZID=Europe/Berlin:20200201T013000")), "tzid"),
